@@ -4,7 +4,9 @@ rotated-analysis coordinate clause is decided here; the ridge decoding is oracle
 Helper lemmas: PeroVerif/Lemmas/Rot90.lean.
 -/
 import PeroVerif.Model.Rot90
+import PeroVerif.Model.OrderLines
 import PeroVerif.Lemmas.Rot90
+import PeroVerif.Lemmas.OrderLines
 
 namespace C18
 open Rot
@@ -126,5 +128,37 @@ theorem rotate_affine (rot : Nat) (shape : Nat × Nat) (p d : Int × Int) (hr : 
       refine Prod.ext rfl ?_
       dsimp only; omega
     · dsimp only; rw [Int.neg_mul_neg, Int.add_comm]
+
+
+/-! ### `order_lines_vertical`: the three parallel lists stay aligned -/
+open OrdL
+
+/-- `detect` orders baselines, heights and outlines by three SEPARATE sorts with the same (jittered) keys.
+Position `i` of the three results holds the baseline, the heights and the outline of the SAME detected line:
+zipping the three results gives the one sort of the zipped triples. -/
+theorem order_lines_aligned {β η τ : Type} (keys : List Rat) (bs : List β) (hs : List η) (ts : List τ)
+    (hb : bs.length = keys.length) (hh : hs.length = keys.length) (ht : ts.length = keys.length) :
+    (orderLines keys bs hs ts).1.zip ((orderLines keys bs hs ts).2.1.zip (orderLines keys bs hs ts).2.2) =
+      reorder keys (bs.zip (hs.zip ts)) := by
+  exact orderLines_aligned keys bs hs ts hb hh ht
+
+/-- Ordering only permutes the lines ... -/
+theorem order_lines_perm {α : Type} (keys : List Rat) (xs : List α) (h : xs.length = keys.length) :
+    (reorder keys xs).Perm xs := by
+  exact reorder_perm keys xs (Nat.le_of_eq h)
+
+/-- ... into non-decreasing order of their (jittered) vertical position. -/
+theorem order_lines_sorted {α : Type} (keys : List Rat) (xs : List α) :
+    ((sortByKey (keys.zip xs)).map Prod.fst).Pairwise (fun a b => a ≤ b) := by
+  exact sortByKey_sorted (keys.zip xs)
+
+/-- With pairwise distinct keys (what the jitter is for) the order is strict, so Python's tuple comparison
+never looks at the payloads (NumPy arrays, which cannot be compared) and `sorted` is this sort by key. -/
+theorem order_lines_strict {α : Type} (keys : List Rat) (xs : List α) (hk : keys.Nodup) :
+    ((sortByKey (keys.zip xs)).map Prod.fst).Pairwise (fun a b => a < b) := by
+  exact sortByKey_strict keys xs hk
+
+example : orderLines [(5/2 : Rat), 1/2, 3/2] ["b2", "b0", "b1"] [2, 0, 1] ['c', 'a', 'b'] =
+    (["b0", "b1", "b2"], [0, 1, 2], ['a', 'b', 'c']) := by decide +kernel
 
 end C18
